@@ -140,6 +140,9 @@ func (t *txM) bytes() (all []byte, unsignedLen int) {
 func (t *txM) countFields() []string {
 	f := []string{"tx.code.len", "tx.attrs.len", "tx.nsigs"}
 	for i, s := range t.Sigs {
+		if i > 0 {
+			continue // first entry only (later entries cost a decode of every earlier public key per variant)
+		}
 		p := fmt.Sprintf("tx.sig%d.", i)
 		f = append(f, p+"nsigdata", p+"npk")
 		if len(s.SigData) > 0 {
